@@ -308,6 +308,10 @@ func (v *FHIRPathVisitor) VisitLiteralTerm(ctx *grammar.LiteralTermContext) inte
 func (v *FHIRPathVisitor) VisitExternalConstantTerm(ctx *grammar.ExternalConstantTermContext) interface{} {
 	ident := ctx.ExternalConstant().GetText()
 	ident = strings.TrimPrefix(ident, "%")
+	// %`name` and %'name' are the delimited spellings of %name
+	if len(ident) >= 2 && (ident[0] == '`' || ident[0] == '\'') && ident[len(ident)-1] == ident[0] {
+		ident = ident[1 : len(ident)-1]
+	}
 	return v.transformedVisitResult(&expr.ExternalConstantExpression{Identifier: ident})
 }
 
